@@ -46,7 +46,7 @@ theorem twoPass_oneC (law : Law) (s : List Int) : ∃ ls1 ls2 : List Int,
     generalize dropBase (List.map (fun x => x) s) s = s', (dropBase_ne (List.map (fun x => x) s) s hs) = hs'
     generalize flushBaseC (List.map (fun x => x) (0 :: s')) = flush
     obtain ⟨ls1, h1, hrun1, hfed1, hts1, hlast1, hst1⟩ :=
-      process_one law {} {} (0 :: s') flush relP_init (Nat.le_refl 0) (Or.inr rfl) (Or.inr ⟨rfl, rfl⟩) (by simp)
+      process_one law {} {} (0 :: s') flush relP_init (Nat.le_refl 0) (Or.inr rfl) (Or.inr ⟨rfl, rfl, rfl⟩) (by simp)
     obtain ⟨ls2, h2, hrun2, hfed2, -, -, -⟩ :=
       process_one law _ _ s' true h1 hts1 (Or.inl hlast1) (Or.inl hst1) hs'
     refine ⟨ls1, ls2, ?_, ?_⟩
@@ -90,6 +90,24 @@ theorem twoPass_simC (L : List Int) :
     have h1 := process_sim law hl cs hc k hk (0 :: L') flush _ _ h0 (by simp)
     have h2 := process_sim law hl cs hc k hk L' true _ _ h1 hL'
     exact h2.sim.recs
+
+theorem twoPass_simLFC (L : List Int) :
+    (twoPass law (L.map (fA cs))).recs.map (projLF' k) =
+      (twoPass law (L.map (fB (cs.getD k 1)))).recs.map (projLF' 0) := by
+  have hn : 0 < cs.length := by omega
+  have hc0 := rep_pos cs hc hn
+  have hck := getD_pos cs hc k hk
+  by_cases hL : L = []
+  · subst hL; rfl
+  · rw [twoPass_eqC law (fA cs) L hL cs.length (length_fA cs) (fA_zero cs),
+      twoPass_eqC law (fB (cs.getD k 1)) L hL 1 (fun _ => rfl) (by simp [fB])]
+    have hra : ∀ S : List Int, (S.map fun x => rep (fA cs x)) = S.map (rep cs * ·) := by
+      intro S; apply List.map_congr_left; intro x _; exact rep_fA cs hn x
+    have hrb : ∀ S : List Int, (S.map fun x => rep (fB (cs.getD k 1) x)) = S.map (cs.getD k 1 * ·) := by
+      intro S; apply List.map_congr_left; intro x _; exact rep_fB _ x
+    rw [hra, hra, hrb, hrb, dropBase_scale _ (by omega), dropBase_scale _ (by omega),
+      flushBaseC_scale _ (by omega), flushBaseC_scale _ (by omega)]
+    exact twoProc_simLF law hl cs hc k hk _ _ (dropBase_ne L L hL)
 
 end sim
 
